@@ -28,7 +28,7 @@ resolving the roles to concrete locks / resources, and an arbitrary family of lo
                      `twoPL_serializable`, so sorting it by lock point gives the final state of `s`, keeps every
                      operation's own order, and is serial.
 4. `wellformed_ops_serializable`
-                     (3) for runs of the 23 operation kinds of `wellFormedOps` on the skeletons regenerated from
+                     (3) for runs of the 24 operation kinds of `wellFormedOps` on the skeletons regenerated from
                      virtual.py; the monitor premises are discharged by `decide` (`ops_bridge_premises`).
 5. `NotCovered`      what the claim does NOT cover, as named definitions with the corresponding negative facts.
 6. non-vacuity: three concrete `_single_gate` runs (two on the same simulator node, one elsewhere), each with an
@@ -313,7 +313,7 @@ theorem wellformed_ops_serializable (guard : Res → Lock) (ops : List (OpRun V)
 
 /-! ### (5) what the theorem does NOT cover
 
-The claim above is about runs of the 23 kinds in `wellFormedOps`, along paths without lock time-out, with a
+The claim above is about runs of the 24 kinds in `wellFormedOps`, along paths without lock time-out, with a
 *static* role assignment.  Outside it:
 
 * **operations outside the list** (`uncoveredMethods`).  Lock primitives and register helpers are parts of the
@@ -322,8 +322,8 @@ The claim above is about runs of the 23 kinds in `wellFormedOps`, along paths wi
     (`NotCovered.thirdNodeMerge`);  `remote_merge_from`, which triggers it, is guarded only given the old
     simulator's lock (`NotCovered.mergeFromNeedsOld`);
   - `remote_measure` removes the handle from its node's `virtQubits` holding only the simulator's lock
-    (`NotCovered.measureListMutation`);
-  - `remote_apply_S` is simply absent from `wellFormedOps` (it does pass the monitors: `apply_S_would_pass`).
+    (`NotCovered.measureListMutation`).
+  (`remote_apply_S`, added to the source later, is in the list: `apply_S_covered`.)
 * **the time-out path of `_lock_nodes`**: with `cancel` + release of every requested node the two-qubit gate is
   not two-phase (`NotCovered.lockTimeout`); the theorem speaks about `noTimeout` paths only.
 * **the unlocked `active` pre-tests**: every handle operation reads `active` before holding any lock
@@ -353,7 +353,7 @@ def uncoveredMethods : List String :=
   ["_get_global_lock", "remote_get_global_lock", "_release_global_lock", "remote_release_global_lock",
    "_lock_reg_qubits", "remote_lock_reg_qubits", "_unlock_reg_qubits", "remote_unlock_reg_qubits",
    "remote_add_register", "remote_new_register", "remote_delete_register", "remote_merge_from",
-   "remote_update_virtual_merge", "remote_apply_S", "remote_measure", "_lock_nodes", "_lock_inreg",
+   "remote_update_virtual_merge", "remote_measure", "_lock_nodes", "_lock_inreg",
    "_unlock_inreg", "_lock_simulating_node", "sq_lock", "sq_remote_lock", "sq_unlock", "sq_remote_unlock"]
 
 /-- `remote_update_virtual_merge` at a third node is not guarded -/
@@ -393,9 +393,9 @@ theorem notCovered_lockTimeout : NotCovered.lockTimeout := lock_timeout_breaks_t
 theorem notCovered_activePretests : NotCovered.activePretests := active_pretests_unlocked
 theorem notCovered_staticAssignment (o : OpRun V) : NotCovered.StaticAssignment o := fun _ _ _ _ => rfl
 
-/-- `remote_apply_S` is not in the list although it passes the same monitors -/
-theorem apply_S_would_pass :
-    "remote_apply_S" ∉ wellFormedOps ∧ twoPhase (noTimeout Gen.remote_apply_S) = true ∧
+/-- `remote_apply_S` (same shape as `remote_apply_K`) is in the list and passes the same monitors -/
+theorem apply_S_covered :
+    "remote_apply_S" ∈ wellFormedOps ∧ wellFormedOps.length = 24 ∧ twoPhase (noTimeout Gen.remote_apply_S) = true ∧
     guarded needs exempt (noTimeout Gen.remote_apply_S) = true ∧
     lockDiscipline [] (noTimeout Gen.remote_apply_S) = true := by decide +kernel
 
